@@ -417,7 +417,10 @@ class StmtMixin:
         return self.loop_keys[id(s)]
 
     def loop_contract(self, s):
-        return (self.contract.get("loops") or {}).get(self.loop_key(s), {})
+        loops = self.contract.get("loops") or {}
+        if "@segment" in loops and id(s) == getattr(self, "segment_loop_id", None):
+            return loops["@segment"]
+        return loops.get(self.loop_key(s), {})
 
     def mutated_roots(self, stmts, st):
         """Names whose object may be mutated by the statements -> set of names, or (name, attr)
@@ -651,7 +654,7 @@ class StmtMixin:
             _, mode, dref = seq
             d0 = st.obj(dref)
             # iteration order: a ghost injective enumeration of the keys present at loop entry
-            keyf = z3.Function("iterkey!%d" % fresh_id(), INT, d0.ksort)
+            keyf = fresh_func("iterkey", INT, d0.ksort)
             n = d0.size
             k1, k2 = fresh("k", INT), fresh("k", INT)
             st.assume(qall([k1], z3.Implies(z3.And(k1 >= 0, k1 < n), z3.Select(d0.dom, keyf(k1))), pats=[keyf(k1)]))
@@ -692,6 +695,7 @@ class StmtMixin:
     def subscript_at(self, seq, k, st, node):
         """seq[k] for k known in range (no obligation)."""
         saved, self.spec = self.spec, True
+        saved_nw, self._no_wrap = getattr(self, "_no_wrap", False), True
         try:
             fake = ast.Name(id="__k", ctx=ast.Load())
             ast.copy_location(fake, node)
@@ -701,6 +705,7 @@ class StmtMixin:
             return v
         finally:
             self.spec = saved
+            self._no_wrap = saved_nw
 
     def s_For(self, s, st):
         if s.orelse:
